@@ -51,6 +51,13 @@ Clauses(r) ==
       [] r.k = "kept"      -> << <<"kept-source=serial-after-move", DistOf(r.np, r.rp, r.cp, r.D, r.A)>> >>
       [] r.k = "spmv"      -> SpmvClauses(r)
       [] r.k = "inner"     -> << <<"inner=serial-on-all-ranks", Len(r.out) = r.np /\ AllEqualTo(Flat(r.out), InnerDef(r.x, r.y))>> >>
+      \* a copy obtained through the converting constructors is the same distributed matrix, bookkeeping included
+      [] r.k = "converted" -> BuildClauses(r)
+      \* complex values: sum_i x_i conj(y_i), both parts, on every rank
+      [] r.k = "cinner"    -> << <<"complex-inner=serial-on-all-ranks",
+                                    /\ Len(r.out) = r.np
+                                    /\ \A q \in 1..r.np : r.out[q] = << MapThenSumSet(LAMBDA i : r.xr[i] * r.yr[i] + r.xi[i] * r.yi[i], 1..Len(r.xr)),
+                                                                        MapThenSumSet(LAMBDA i : r.xi[i] * r.yr[i] - r.xr[i] * r.yi[i], 1..Len(r.xr)) >> >> >>
       [] r.k = "transpose" -> TransposeClauses(r)
       [] r.k = "product"   -> ProductClauses(r)
       [] r.k = "rrows"     -> << <<"remote_rows=rows-of-B", WellFormed(r.B) /\ RemoteRowsOK(r.np, r.B, r.rows, r.rcol)>> >>
